@@ -95,6 +95,20 @@ impl Next<f64> for WeightedMovingAverage {
             self.sum = self.sum - self.sum_flat + (input * self.weight);
         }
         self.sum_flat = self.sum_flat - old_val + input;
+
+        // Every time the ring buffer wraps around with a full window it holds the window in
+        // chronological order: recompute both sums from it, so that rounding errors of the
+        // incremental updates (which `sum` integrates from `sum_flat`) cannot build up over
+        // long streams. This costs O(period) once per `period` inputs.
+        if self.index == 0 && self.count == self.period {
+            self.sum = 0.0;
+            self.sum_flat = 0.0;
+            for (i, value) in self.deque.iter().enumerate() {
+                self.sum += value * (i + 1) as f64;
+                self.sum_flat += value;
+            }
+        }
+
         self.sum / (self.weight * (self.weight + 1.0) / 2.0)
     }
 }
